@@ -896,6 +896,20 @@ theorem rdp_flagExps_nodup (k : RdpNegClass) : k.flagExps.Nodup := by cases k <;
 theorem rdp_protocolExps_lt : ∀ e ∈ rdpProtocolExps, e < 32 := by decide
 theorem rdp_protocolExps_nodup : rdpProtocolExps.Nodup := by decide
 
+/-- the constructor's converter leaves single-bit members alone -/
+theorem filter_pow_ne_zero (sel : List Nat) : (sel.map (2 ^ ·)).filter (· != 0) = sel.map (2 ^ ·) := by
+  rw [List.filter_eq_self]
+  intro x hx
+  obtain ⟨e, _, rfl⟩ := List.mem_map.mp hx
+  have : 0 < 2 ^ e := Nat.two_pow_pos e
+  simp only [bne_iff_ne, ne_eq]
+  omega
+
+theorem construct_pow (cls : RdpNegClass) (flags psel : List Nat) :
+    RdpNeg.construct cls flags (psel.map (2 ^ ·)) = ⟨cls, flags, psel.map (2 ^ ·)⟩ := by
+  unfold RdpNeg.construct
+  rw [filter_pow_ne_zero]
+
 theorem composeRdpNeg_spec (r : RdpNeg) (h : rdpNegWf r) : composeRdpNeg r = .ok (encodeRdpNeg r.toSpec) := by
   obtain ⟨fsel, psel, hf, hp, ef, ep⟩ := h
   have hfw : flagWord 0 fsel < 256 ^ 1 :=
@@ -939,7 +953,7 @@ theorem parseRdpNeg_encode (r : RdpNeg) (s : Bytes) (h : rdpNegWf r) :
   have h8 : ((8 : Nat) != RDPNegotiationBase_PACKET_LENGTH) = false := by decide
   simp only [h8, Bool.false_eq_true, if_false, drop_enc]
   rw [rdp_protocolCodes, parseFlags_zero_cons, hP.2.2]
-  rfl
+  simp only [construct_pow]
 
 theorem rdpNeg_spec_roundtrip (x : Spec.Opp.RdpNeg) (s : Bytes) (h : x.wf) :
     decodeRdpNeg (encodeRdpNeg x ++ s) = some (x, 8) := by
@@ -1001,7 +1015,7 @@ theorem parseRdpNeg_tag (want : RdpNegClass) (bs : Bytes) (r : RdpNeg) (n : Nat)
                 rw [hp] at h
                 simp only [Except.ok.injEq, Prod.mk.injEq] at h
                 obtain ⟨h1, h2⟩ := h
-                refine ⟨by rw [← h1], by omega, ?_⟩
+                refine ⟨by rw [← h1]; rfl, by omega, ?_⟩
                 simpa using htc
     · rw [if_neg hm] at h; simp at h
 
@@ -1697,16 +1711,29 @@ theorem filter_pow_ge (sel : List Nat) :
 theorem composeFlags_flagWord (bo : ByteOrder) (k sh : Nat) (sel : List Nat) :
     composeFlags bo k sh (sel.map (2 ^ ·)) = composeNum bo k ((flagWord sh sel : Nat) : Int) := rfl
 
-/-- the constructible domain of `MySQLHandshakeV10` on which the round trip holds -/
+theorem capSecure : CLIENT_SECURE_CONNECTION = 2 ^ 15 := rfl
+
+/-- the length rule on a selection of capability members -/
+theorem authLen_pow (sel : List Nat) (apdl : Nat) :
+    authPluginData2Len (sel.map (2 ^ ·)) apdl =
+      if 19 ∈ sel then max 13 (apdl - 8) else if 15 ∈ sel then 13 else 0 := by
+  unfold authPluginData2Len
+  simp only [capPlugin, capSecure, pow2_mem_map, decide_eq_true_eq]
+
+/-- the constructible domain of `MySQLHandshakeV10` on which the round trip holds: with
+`CLIENT_PLUGIN_AUTH` a second part of 13..247 bytes and a plugin name; with
+`CLIENT_SECURE_CONNECTION` alone (servers before 5.5.7) a second part of 13 bytes and no name; with
+neither, neither -/
 def mySqlV10Wf (h : MySqlHandshakeV10) : Prop :=
   h.protocolVersion ∈ Gen.MySQLVersion.memberCodes ∧ isAscii h.serverVersion = true ∧ (0 : UInt8) ∉ h.serverVersion ∧
   h.connectionId < 2 ^ 32 ∧ h.authPluginData.length = 8 ∧ h.characterSet ∈ Gen.MySQLCharacterSet.codes ∧
   ∃ sel ssel : List Nat, sel.Sublist capExps ∧ h.capabilities = sel.map (2 ^ ·) ∧
     ssel.Sublist statusExps ∧ h.states = ssel.map (2 ^ ·) ∧
     (if 19 ∈ sel then
-      ∃ d2 nm, h.authPluginData2 = some d2 ∧ d2.length ≤ 247 ∧ h.authPluginName = some nm ∧
+      ∃ d2 nm, h.authPluginData2 = some d2 ∧ 13 ≤ d2.length ∧ d2.length ≤ 247 ∧ h.authPluginName = some nm ∧
         isAscii nm = true ∧ (0 : UInt8) ∉ nm
-     else h.authPluginData2 = none ∧ h.authPluginName = none)
+     else h.authPluginName = none ∧
+      (if 15 ∈ sel then ∃ d2, h.authPluginData2 = some d2 ∧ d2.length = 13 else h.authPluginData2 = none))
 
 def MySqlHandshakeV10.toSpec (h : MySqlHandshakeV10) : Spec.Opp.MySqlHandshakeV10 :=
   ⟨h.protocolVersion, h.serverVersion, h.connectionId, h.authPluginData, orAll h.capabilities, h.characterSet,
@@ -1745,17 +1772,34 @@ theorem composeMySqlHandshakeV10_enc (h : MySqlHandshakeV10) (hw : mySqlV10Wf h)
   simp only [composeStrNul_ok sv hsa hs0, bind, Except.bind]
   by_cases h19 : 19 ∈ sel
   · rw [if_pos h19] at hopt
-    obtain ⟨d2, nm, hd2, hd2l, hnm, hna, hn0⟩ := hopt
+    obtain ⟨d2, nm, hd2, hd13, hd2l, hnm, hna, hn0⟩ := hopt
     subst hd2; subst hnm
-    simp only [h19, decide_true, if_true, data2Bytes, composeStrNul_ok nm hna hn0]
+    simp only [h19, decide_true, if_true, data2Bytes, composeStrNul_ok nm hna hn0, authLen_pow]
+    have hne : (d2.length != max 13 (8 + d2.length - 8)) = false := by
+      simp only [bne_eq_false_iff_eq]; omega
+    rw [hne]
+    simp only [Bool.false_eq_true, if_false]
     rw [composeNum_ok rfl (by simp; omega)]
     simp [pure, Except.pure]
   · rw [if_neg h19] at hopt
-    obtain ⟨hd2, hnm⟩ := hopt
-    subst hd2; subst hnm
-    simp only [h19, decide_false, Bool.false_eq_true, if_false, data2Bytes]
-    rw [show ((0 : Int)) = ((0 : Nat) : Int) from rfl, composeNum_ok rfl (by decide)]
-    simp [pure, Except.pure]
+    obtain ⟨hnm, hopt⟩ := hopt
+    subst hnm
+    by_cases h15 : 15 ∈ sel
+    · rw [if_pos h15] at hopt
+      obtain ⟨d2, hd2, hd13⟩ := hopt
+      subst hd2
+      simp only [h19, h15, decide_false, Bool.false_eq_true, if_false, if_true, data2Bytes, authLen_pow]
+      have hne : (d2.length != 13) = false := by simp only [bne_eq_false_iff_eq]; omega
+      rw [hne]
+      simp only [Bool.false_eq_true, if_false]
+      rw [composeNum_ok rfl (by decide)]
+      simp [pure, Except.pure]
+    · rw [if_neg h15] at hopt
+      subst hopt
+      simp only [h19, h15, decide_false, Bool.false_eq_true, if_false, data2Bytes, authLen_pow]
+      rw [if_neg (by simp)]
+      rw [composeNum_ok rfl (by decide)]
+      simp [pure, Except.pure]
 
 
 theorem parseStrNul_enc (v s : Bytes) (ha : isAscii v = true) (h0 : (0 : UInt8) ∉ v) :
@@ -1765,6 +1809,13 @@ theorem parseStrNul_enc (v s : Bytes) (ha : isAscii v = true) (h0 : (0 : UInt8) 
 
 theorem drop_strNul (v s : Bytes) : List.drop (v.length + 1) (v ++ ([0] ++ s)) = s := by
   rw [← List.append_assoc]; exact List.drop_left' (by simp)
+
+theorem parseAuthData2_some (d s : Bytes) (hd : d.length ≠ 0) :
+    parseAuthData2 d.length (d ++ s) = .ok (some d, d.length) := by
+  unfold parseAuthData2
+  have : (d.length != 0) = true := by simpa using hd
+  rw [if_pos this, parseRaw_of_len (n := d.length) d s rfl rfl]
+  rfl
 
 theorem parseMySqlHandshakeV10_enc (h : MySqlHandshakeV10) (hw : mySqlV10Wf h) (s : Bytes) :
     parseMySqlHandshakeV10 (encV10 h ++ s) = .ok (h, (encV10 h).length) := by
@@ -1806,35 +1857,208 @@ theorem parseMySqlHandshakeV10_enc (h : MySqlHandshakeV10) (hw : mySqlV10Wf h) (
   rw [mysql_statusCodes, hS]
   simp only [drop_enc]
   rw [hP2]
-  simp only [drop_enc, hp3, pow2_mem_map]
+  simp only [drop_enc, hp3, pow2_mem_map, authLen_pow]
+  have h10 : ∀ X : Bytes, parseRaw 10 (List.replicate 10 (0 : UInt8) ++ X) = .ok (List.replicate 10 0, 10) :=
+    fun X => parseRaw_of_len (n := 10) (List.replicate 10 (0 : UInt8)) X (by rfl) (by simp)
+  have hd10 : ∀ X : Bytes, List.drop 10 (List.replicate 10 (0 : UInt8) ++ X) = X :=
+    fun X => List.drop_left' (by simp)
   by_cases h19 : 19 ∈ sel
   · rw [if_pos h19] at hopt
-    obtain ⟨d2, nm, hd2, hd2l, hnm, hna, hn0⟩ := hopt
+    obtain ⟨d2, nm, hd2, hd13, hd2l, hnm, hna, hn0⟩ := hopt
     subst hd2; subst hnm
     simp only [h19, decide_true, if_true, data2Bytes]
     rw [parseNum_enc rfl (by simp; omega)]
-    simp only [drop_enc]
-    rw [parseRaw_of_len (n := 10) (List.replicate 10 (0 : UInt8)) _ (by rfl) (by simp)]
-    simp only [List.drop_left' (show (List.replicate 10 (0 : UInt8)).length = 10 by simp)]
+    simp only [drop_enc, h10, hd10]
     have hne : ((8 + d2.length) == 0) = false := by simp
-    simp only [hne, Bool.false_eq_true, if_false]
-    rw [parseRaw_of_len (n := d2.length) d2 _ (by omega) rfl]
+    have hmax : max 13 (8 + d2.length - 8) = d2.length := by omega
+    simp only [hne, Bool.and_false, Bool.false_eq_true, if_false, hmax]
+    rw [parseAuthData2_some d2 _ (by omega)]
     simp only [List.drop_left' rfl]
     rw [(strNul_roundtrip nm s hna hn0).2]
     simp only [Except.ok.injEq, Prod.mk.injEq, true_and, List.length_append, encNat_length, List.length_replicate,
       List.length_cons, List.length_nil]
     omega
   · rw [if_neg h19] at hopt
-    obtain ⟨hd2, hnm⟩ := hopt
-    subst hd2; subst hnm
-    simp only [h19, decide_false, Bool.false_eq_true, if_false, data2Bytes, List.nil_append]
+    obtain ⟨hnm, hopt⟩ := hopt
+    subst hnm
+    simp only [h19, decide_false, Bool.false_eq_true, if_false, data2Bytes, Bool.false_and, List.append_nil]
     rw [parseNum_enc rfl (by decide)]
-    simp only [drop_enc]
-    rw [parseRaw_of_len (n := 10) (List.replicate 10 (0 : UInt8)) _ (by rfl) (by simp)]
-    simp only [Except.ok.injEq, Prod.mk.injEq, true_and, List.length_append, encNat_length, List.length_replicate,
-      List.length_cons, List.length_nil]
-    omega
+    simp only [drop_enc, h10, hd10]
+    by_cases h15 : 15 ∈ sel
+    · rw [if_pos h15] at hopt
+      obtain ⟨d2, hd2, hd13⟩ := hopt
+      subst hd2
+      simp only [h15, if_true]
+      rw [← hd13, parseAuthData2_some d2 _ (by omega)]
+      simp only [Except.ok.injEq, Prod.mk.injEq, true_and, List.length_append, encNat_length,
+        List.length_replicate, List.length_cons, List.length_nil]
+      omega
+    · rw [if_neg h15] at hopt
+      subst hopt
+      simp only [h15, if_false, parseAuthData2, show ((0 : Nat) != 0) = false from rfl, Bool.false_eq_true, pure, Except.pure,
+        Except.ok.injEq, Prod.mk.injEq, true_and, List.length_append, encNat_length,
+        List.length_replicate, List.length_cons, List.length_nil, List.nil_append]
+      omega
 
+
+/-- split a successful `Except` bind -/
+theorem bindE_ok {α β : Type} {x : Except PErr α} {f : α → Except PErr β} {b : β} (h : (x >>= f) = .ok b) :
+    ∃ a, x = .ok a ∧ f a = .ok b := by
+  cases x with
+  | error e => cases h
+  | ok a => exact ⟨a, rfl, h⟩
+
+/-- a composed number is in range -/
+theorem composeNum_ok_lt {bo : ByteOrder} {k v : Nat} {b : Bytes} (h : composeNum bo k (v : Int) = .ok b) :
+    v < 256 ^ k := by
+  unfold composeNum at h
+  split at h
+  · cases h
+  · split at h
+    · cases h
+    · split at h
+      · cases h
+      · next hv =>
+        have hv' : ¬ (256 ^ k ≤ v) := by simpa using hv
+        omega
+
+/-- the second part of the auth plugin data and the plugin name are the ones the capabilities call
+for: 13..247 bytes and a name with `CLIENT_PLUGIN_AUTH`; 13 bytes and no name with
+`CLIENT_SECURE_CONNECTION` alone; neither otherwise -/
+def v10Part2Ok (h : MySqlHandshakeV10) : Prop :=
+  if h.capabilities.contains CLIENT_PLUGIN_AUTH = true then
+    ∃ d nm, h.authPluginData2 = some d ∧ 13 ≤ d.length ∧ d.length ≤ 247 ∧ h.authPluginName = some nm
+  else h.authPluginName = none ∧
+    (if h.capabilities.contains CLIENT_SECURE_CONNECTION = true then ∃ d, h.authPluginData2 = some d ∧ d.length = 13
+     else h.authPluginData2 = none)
+
+theorem parseAuthData2_ok_inv {len2 : Nat} {rest : Bytes} {o : Option Bytes} {n : Nat}
+    (h : parseAuthData2 len2 rest = .ok (o, n)) :
+    (data2Bytes o).length = len2 ∧ (len2 ≠ 0 → ∃ d, o = some d) ∧ (len2 = 0 → o = none) := by
+  unfold parseAuthData2 at h
+  split at h
+  · next hne =>
+    simp only [bne_iff_ne, ne_eq] at hne
+    cases hr : parseRaw (len2 : Int) rest with
+    | error e => rw [hr] at h; cases h
+    | ok r =>
+      obtain ⟨d, m⟩ := r
+      rw [hr] at h
+      simp only [Except.map, Except.ok.injEq, Prod.mk.injEq] at h
+      obtain ⟨rfl, _⟩ := h
+      obtain ⟨_, hm, hle, hv⟩ := parseRaw_ok_inv hr
+      subst hv
+      simp only [Int.toNat_natCast] at hm
+      refine ⟨?_, fun _ => ⟨_, rfl⟩, fun h0 => absurd h0 hne⟩
+      simp only [data2Bytes, List.length_take]
+      omega
+  · next hne =>
+    simp only [bne_iff_ne, ne_eq, Decidable.not_not] at hne
+    simp only [pure, Except.pure, Except.ok.injEq, Prod.mk.injEq] at h
+    obtain ⟨rfl, _⟩ := h
+    exact ⟨by simp [data2Bytes, hne], fun h0 => absurd hne h0, fun _ => rfl⟩
+
+/-- every greeting the parser accepts has the second part the documentation gives it:
+`MAX(13, auth_plugin_data_len - 8)` bytes (`apdl` is the length octet) -/
+theorem parseMySqlHandshakeV10_part2 {bs : Bytes} {h : MySqlHandshakeV10} {n : Nat}
+    (hp : parseMySqlHandshakeV10 bs = .ok (h, n)) :
+    v10Part2Ok h ∧ ∃ apdl, apdl < 256 ∧
+      (data2Bytes h.authPluginData2).length = authPluginData2Len h.capabilities apdl := by
+  unfold parseMySqlHandshakeV10 at hp
+  split at hp
+  · cases hp
+  · obtain ⟨⟨pv, n1⟩, _, hp⟩ := bindE_ok hp
+    obtain ⟨⟨sv, n2⟩, _, hp⟩ := bindE_ok hp
+    obtain ⟨⟨cid, n3⟩, _, hp⟩ := bindE_ok hp
+    obtain ⟨⟨apd, n4⟩, _, hp⟩ := bindE_ok hp
+    obtain ⟨⟨fl, n5⟩, _, hp⟩ := bindE_ok hp
+    obtain ⟨⟨caps1, n6⟩, _, hp⟩ := bindE_ok hp
+    obtain ⟨⟨cs, n7⟩, _, hp⟩ := bindE_ok hp
+    obtain ⟨⟨states, n8⟩, _, hp⟩ := bindE_ok hp
+    obtain ⟨⟨caps2, n9⟩, _, hp⟩ := bindE_ok hp
+    obtain ⟨⟨apdl, n10⟩, hl, hp⟩ := bindE_ok hp
+    obtain ⟨⟨rs, n11⟩, _, hp⟩ := bindE_ok hp
+    have hlt : apdl < 256 := by have := (parseNum_ok_inv hl).2.2.1; simpa using this
+    simp only at hp
+    by_cases hz : ((caps1 ++ caps2).contains CLIENT_PLUGIN_AUTH && apdl == 0) = true
+    · rw [if_pos hz] at hp; cases hp
+    · rw [if_neg hz] at hp
+      obtain ⟨⟨apd2, n12⟩, h2, hp⟩ := bindE_ok hp
+      simp only at hp
+      obtain ⟨hd2, hsome, hnone⟩ := parseAuthData2_ok_inv h2
+      by_cases hpl : (caps1 ++ caps2).contains CLIENT_PLUGIN_AUTH = true
+      · rw [if_pos hpl] at hp
+        obtain ⟨⟨name, n13⟩, _, hp⟩ := bindE_ok hp
+        simp only [pure, Except.pure, Except.ok.injEq, Prod.mk.injEq] at hp
+        obtain ⟨rfl, _⟩ := hp
+        have hlen : authPluginData2Len (caps1 ++ caps2) apdl = max 13 (apdl - 8) := by
+          unfold authPluginData2Len; rw [if_pos hpl]
+        refine ⟨?_, apdl, hlt, hd2⟩
+        unfold v10Part2Ok
+        simp only [hpl, if_true]
+        obtain ⟨d, rfl⟩ := hsome (by rw [hlen]; omega)
+        simp only [data2Bytes] at hd2
+        exact ⟨d, name, rfl, by omega, by omega, rfl⟩
+      · rw [if_neg hpl] at hp
+        simp only [pure, Except.pure, Except.ok.injEq, Prod.mk.injEq] at hp
+        obtain ⟨rfl, _⟩ := hp
+        refine ⟨?_, apdl, hlt, hd2⟩
+        unfold v10Part2Ok
+        simp only [hpl, Bool.false_eq_true, if_false, true_and]
+        by_cases hsc : (caps1 ++ caps2).contains CLIENT_SECURE_CONNECTION = true
+        · have hlen : authPluginData2Len (caps1 ++ caps2) apdl = 13 := by
+            unfold authPluginData2Len; rw [if_neg hpl, if_pos hsc]
+          simp only [hsc, if_true]
+          obtain ⟨d, rfl⟩ := hsome (by rw [hlen]; omega)
+          simp only [data2Bytes] at hd2
+          exact ⟨d, rfl, by omega⟩
+        · have hlen : authPluginData2Len (caps1 ++ caps2) apdl = 0 := by
+            unfold authPluginData2Len; rw [if_neg hpl, if_neg hsc]
+          simp only [hsc, Bool.false_eq_true, if_false]
+          exact hnone hlen
+
+/-- `compose` writes a second part only as `_parse` reads it back: whenever it succeeds the value has
+the second part and the plugin name the capabilities call for -/
+theorem composeMySqlHandshakeV10_part2 {h : MySqlHandshakeV10} {b : Bytes}
+    (hc : composeMySqlHandshakeV10 h = .ok b) :
+    (if h.capabilities.contains CLIENT_PLUGIN_AUTH = true then
+      13 ≤ (data2Bytes h.authPluginData2).length ∧ (data2Bytes h.authPluginData2).length ≤ 247 ∧
+        ∃ nm, h.authPluginName = some nm
+     else if h.capabilities.contains CLIENT_SECURE_CONNECTION = true then (data2Bytes h.authPluginData2).length = 13
+     else (data2Bytes h.authPluginData2).length = 0) := by
+  unfold composeMySqlHandshakeV10 at hc
+  obtain ⟨a, _, hc⟩ := bindE_ok hc
+  obtain ⟨b', _, hc⟩ := bindE_ok hc
+  obtain ⟨c, _, hc⟩ := bindE_ok hc
+  obtain ⟨d, _, hc⟩ := bindE_ok hc
+  obtain ⟨e, _, hc⟩ := bindE_ok hc
+  obtain ⟨f, _, hc⟩ := bindE_ok hc
+  obtain ⟨g, _, hc⟩ := bindE_ok hc
+  simp only at hc
+  by_cases hpl : h.capabilities.contains CLIENT_PLUGIN_AUTH = true
+  · simp only [hpl, if_true] at hc ⊢
+    by_cases hne : ((data2Bytes h.authPluginData2).length !=
+        authPluginData2Len h.capabilities (8 + (data2Bytes h.authPluginData2).length)) = true
+    · rw [if_pos hne] at hc; cases hc
+    · rw [if_neg hne] at hc
+      obtain ⟨l, hl, hc⟩ := bindE_ok hc
+      simp only [bne_iff_ne, ne_eq, Decidable.not_not] at hne
+      unfold authPluginData2Len at hne
+      rw [if_pos hpl] at hne
+      have hlt := composeNum_ok_lt hl
+      refine ⟨by omega, by simp at hlt; omega, ?_⟩
+      cases hn : h.authPluginName with
+      | none => rw [hn] at hc; cases hc
+      | some x => exact ⟨x, rfl⟩
+  · simp only [hpl, Bool.false_eq_true, if_false] at hc ⊢
+    by_cases hne : ((data2Bytes h.authPluginData2).length != authPluginData2Len h.capabilities 0) = true
+    · rw [if_pos hne] at hc; cases hc
+    · simp only [bne_iff_ne, ne_eq, Decidable.not_not] at hne
+      unfold authPluginData2Len at hne
+      rw [if_neg hpl] at hne
+      split
+      · next hsc => rw [if_pos hsc] at hne; exact hne
+      · next hsc => rw [if_neg hsc] at hne; exact hne
 
 theorem encV10_spec (h : MySqlHandshakeV10) (hw : mySqlV10Wf h) : encV10 h = encodeMySqlHandshakeV10 h.toSpec := by
   obtain ⟨_, _, _, _, _, _, sel, ssel, _, hcaps, _, _, _⟩ := hw
@@ -1891,17 +2115,114 @@ theorem mySqlHandshakeV10_spec_roundtrip (x : Spec.Opp.MySqlHandshakeV10) (s : B
       List.length_append, toBytesLE_length, List.length_replicate, List.length_cons, List.length_nil, hp1]
     omega
   · have h19' : caps.testBit 19 = false := by simpa using h19
-    simp only [h19', Bool.false_eq_true, if_false] at hopt ⊢
-    obtain ⟨hp2, hnm, _⟩ := hopt
-    subst hp2; subst hnm
+    simp only [h19', Bool.false_eq_true, if_false, Spec.Opp.MySqlHandshakeV10.secure] at hopt ⊢
+    obtain ⟨hnm, hopt⟩ := hopt
+    subst hnm
     rw [rdLE_enc (by decide)]
     simp only [Option.bind_some]
     rw [rdN_app' (n := 10) (List.replicate 10 (0 : UInt8)) _ (by simp)]
-    simp only [Option.bind_some, Option.pure_def, Option.some.injEq, Prod.mk.injEq, true_and,
-      List.length_append, toBytesLE_length, List.length_replicate, List.length_cons, List.length_nil, hp1]
-    omega
+    by_cases h15 : caps.testBit 15 = true
+    · simp only [h15, if_true] at hopt ⊢
+      simp only [Option.bind_some, List.nil_append]
+      rw [rdN_app' (n := 13) p2 s hopt]
+      simp only [Option.bind_some, Option.pure_def, Option.some.injEq, Prod.mk.injEq, true_and,
+        List.length_append, toBytesLE_length, List.length_replicate, List.length_cons, List.length_nil, hp1]
+      omega
+    · have h15' : caps.testBit 15 = false := by simpa using h15
+      simp only [h15', Bool.false_eq_true, if_false] at hopt ⊢
+      subst hopt
+      simp only [Option.bind_some, Option.pure_def, Option.some.injEq, Prod.mk.injEq, true_and,
+        List.length_append, toBytesLE_length, List.length_replicate, List.length_cons, List.length_nil, hp1]
+      omega
 
+/-! ### flag sets given in any order, with repetitions: the round trip up to the SET of members -/
 
+/-- the canonical selection (member order, no repetition) behind a list of single-bit values -/
+def canonSel (es vals : List Nat) : List Nat := es.filter fun e => decide (2 ^ e ∈ vals)
+
+theorem canonSel_sublist (es vals : List Nat) : (canonSel es vals).Sublist es := List.filter_sublist
+
+theorem two_pow_inj {a b : Nat} (h : 2 ^ a = 2 ^ b) : a = b := by
+  have h1 := (Nat.pow_le_pow_iff_right (a := 2) (by decide)).mp (Nat.le_of_eq h)
+  have h2 := (Nat.pow_le_pow_iff_right (a := 2) (by decide)).mp (Nat.le_of_eq h.symm)
+  omega
+
+/-- the canonical selection has the same members -/
+theorem mem_canonSel_map (es vals : List Nat) (hv : ∀ v ∈ vals, v ∈ es.map (2 ^ ·)) (x : Nat) :
+    x ∈ (canonSel es vals).map (2 ^ ·) ↔ x ∈ vals := by
+  unfold canonSel
+  simp only [List.mem_map, List.mem_filter, decide_eq_true_eq]
+  constructor
+  · rintro ⟨e, ⟨_, hm⟩, rfl⟩; exact hm
+  · intro hx
+    obtain ⟨e, he, rfl⟩ := List.mem_map.mp (hv x hx)
+    exact ⟨e, ⟨he, hx⟩, rfl⟩
+
+theorem exists_exps (es vals : List Nat) (hv : ∀ v ∈ vals, v ∈ es.map (2 ^ ·)) :
+    ∃ xs : List Nat, vals = xs.map (2 ^ ·) ∧ ∀ e ∈ xs, e ∈ es := by
+  induction vals with
+  | nil => exact ⟨[], rfl, fun _ h => by cases h⟩
+  | cons v vs ih =>
+    obtain ⟨xs, hxs, hsub⟩ := ih (fun w hw => hv w (List.mem_cons_of_mem _ hw))
+    obtain ⟨e, he, hev⟩ := List.mem_map.mp (hv v (List.mem_cons_self))
+    refine ⟨e :: xs, by simp only [List.map_cons, hxs, ← hev], ?_⟩
+    intro a ha
+    rcases List.mem_cons.mp ha with rfl | h
+    · exact he
+    · exact hsub a h
+
+/-- the OR of single-bit members, whatever their order and multiplicity, is the flag word of the
+canonical selection -/
+theorem orAll_canon (es vals : List Nat) (hv : ∀ v ∈ vals, v ∈ es.map (2 ^ ·)) :
+    orAll vals = flagWord 0 (canonSel es vals) := by
+  obtain ⟨xs, rfl, hsub⟩ := exists_exps es vals hv
+  rw [← flagWord_zero]
+  apply Nat.eq_of_testBit_eq
+  intro i
+  rw [flagWord_testBit, flagWord_testBit]
+  simp only [Nat.zero_add, canonSel, List.mem_filter, decide_eq_true_eq]
+  have hinj : (2 ^ i ∈ xs.map (2 ^ ·)) ↔ i ∈ xs := by
+    simp only [List.mem_map]
+    constructor
+    · rintro ⟨a, ha, hp⟩; rw [← two_pow_inj hp]; exact ha
+    · intro h; exact ⟨i, h, rfl⟩
+  by_cases h : i ∈ xs
+  · have := hinj.mpr h
+    simp [h, hsub i h, this]
+  · have : ¬ (2 ^ i ∈ xs.map (2 ^ ·)) := fun hh => h (hinj.mp hh)
+    simp [h, this]
+
+/-- what the validators of `RDPNegotiationBase` accept: flags of the class's flag enumeration and
+members of `RDPProtocol` (the zero-valued `RDP` included), in any order, with repetitions -/
+def rdpNegConstructible (cls : RdpNegClass) (flags protocol : List Nat) : Prop :=
+  (∀ f ∈ flags, f ∈ cls.flagCodes) ∧ (∀ p ∈ protocol, p ∈ Gen.RDPProtocol.codes)
+
+/-- the canonical representative (member order) of a constructed negotiation message -/
+def rdpNegCanon (cls : RdpNegClass) (flags protocol : List Nat) : RdpNeg :=
+  ⟨cls, (canonSel cls.flagExps flags).map (2 ^ ·), (canonSel rdpProtocolExps (protocol.filter (· != 0))).map (2 ^ ·)⟩
+
+theorem rdpNegCanon_wf (cls : RdpNegClass) (flags protocol : List Nat) : rdpNegWf (rdpNegCanon cls flags protocol) :=
+  ⟨_, _, canonSel_sublist _ _, canonSel_sublist _ _, rfl, rfl⟩
+
+theorem rdp_protocol_nonzero {protocol : List Nat} (hp : ∀ p ∈ protocol, p ∈ Gen.RDPProtocol.codes) :
+    ∀ v ∈ protocol.filter (· != 0), v ∈ rdpProtocolExps.map (2 ^ ·) := by
+  intro v hv
+  obtain ⟨hm, hne⟩ := List.mem_filter.mp hv
+  have := hp v hm
+  rw [rdp_protocolCodes] at this
+  rcases List.mem_cons.mp this with rfl | h
+  · simp at hne
+  · exact h
+
+/-- a constructed message composes exactly as its canonical representative does -/
+theorem composeRdpNeg_canon (cls : RdpNegClass) (flags protocol : List Nat) (hc : rdpNegConstructible cls flags protocol) :
+    composeRdpNeg (RdpNeg.construct cls flags protocol) = composeRdpNeg (rdpNegCanon cls flags protocol) := by
+  obtain ⟨hf, hp⟩ := hc
+  have hf' : ∀ v ∈ flags, v ∈ cls.flagExps.map (2 ^ ·) := fun v hv => by rw [← rdp_flagCodes]; exact hf v hv
+  unfold composeRdpNeg RdpNeg.construct rdpNegCanon
+  simp only [composeFlags_shift0]
+  rw [orAll_canon cls.flagExps flags hf', orAll_canon rdpProtocolExps _ (rdp_protocol_nonzero hp),
+    ← flagWord_zero, ← flagWord_zero]
 
 /-! ### composed framing units are not empty (hypothesis of the generic reader theorems) -/
 
